@@ -211,8 +211,12 @@ func (f *fileData) save() error {
 // writeBack saves an open file's changes, unless the file was removed or renamed since it was opened.
 // Like an unlinked file, the data then lives on in the open handles only: saving would bring the old name back.
 func (f *file) writeBack() error {
-	_, err := f.fs.getFile(f.path)
+	current, err := f.fs.getFile(f.path)
 	if errors.Is(err, hackpadfs.ErrNotExist) || errors.Is(err, hackpadfs.ErrNotDir) {
+		return nil
+	}
+	if err == nil && current.Mode().IsDir() != f.Mode().IsDir() {
+		// the path was removed and now names a directory (or the reverse): replacing that record would orphan its children
 		return nil
 	}
 	return f.save()
